@@ -319,7 +319,23 @@ impl Storage {
                 min_block_number = if self.is_filter_scripts_empty() {
                     min_script_block_number
                 } else {
-                    min_script_block_number.map(|n| n.min(self.get_min_filtered_block_number()))
+                    // The pending matched blocks will be cleared: the scripts which are kept
+                    // have to be filtered again from their own block numbers.
+                    min_script_block_number
+                        .into_iter()
+                        .chain(
+                            self.get_filter_scripts()
+                                .iter()
+                                .filter(|kept| {
+                                    !scripts.iter().any(|ss| {
+                                        ss.script == kept.script
+                                            && ss.script_type == kept.script_type
+                                    })
+                                })
+                                .map(|kept| kept.block_number),
+                        )
+                        .chain(Some(self.get_min_filtered_block_number()))
+                        .min()
                 };
 
                 for ss in scripts {
@@ -341,6 +357,19 @@ impl Storage {
                 if scripts.is_empty() {
                     return;
                 }
+                // The pending matched blocks will be cleared: the scripts which are kept have to
+                // be filtered again from their own block numbers.
+                min_block_number = self
+                    .get_filter_scripts()
+                    .iter()
+                    .filter(|kept| {
+                        !scripts.iter().any(|ss| {
+                            ss.script == kept.script && ss.script_type == kept.script_type
+                        })
+                    })
+                    .map(|kept| kept.block_number)
+                    .min()
+                    .map(|n| n.min(self.get_min_filtered_block_number()));
                 for ss in scripts {
                     let key = [
                         key_prefix.as_ref(),
